@@ -1889,6 +1889,10 @@ fn run_http(cfg: &Cfg, rep: &mut Report, model: &mut Model, rng: &mut Rng) {
     let mut r = rng.fork();
     run_printed_forms(cfg, rep, &mut r, &svc, &mut server, &models[0]);
   }
+  {
+    let mut r = rng.fork();
+    run_spellings(cfg, rep, &mut r, &svc, &mut server, &models[0]); // m18: JSON and FEEL spellings of the same body
+  }
   run_endpoints(rep, &svc, &mut server, &models);
   // the service survived everything
   if !server.alive() {
@@ -2765,6 +2769,15 @@ pub fn run(cfg: &Cfg) -> Report {
   if only.is_none() || only == Some("http") {
     let mut r = rng.fork();
     run_http(cfg, &mut rep, &mut model, &mut r);
+  }
+  if only == Some("spellings") {
+    // m18: the family alone, against its own service process
+    let mut r = rng.fork();
+    let svc = Service { bad_body: None, evaluator: None };
+    match Server::start() {
+      Ok(mut server) => run_spellings(cfg, &mut rep, &mut r, &svc, &mut server, &MDef { ns: "ns1".into(), name: "n1".into(), builds: true }),
+      Err(e) => rep.disagree(Kind::ImplVsSpec, "http", "the service does not start on a loopback port", "start_server(127.0.0.1, free port)", &e, "a listening service"),
+    }
   }
   rep.notes.push("oracles consulted: strict RFC 8259 parser of the harness and serde_json (second opinions on the Lean decoder); in-process ModelEvaluator for the value a deployed model answers".into());
   rep.model_requests = model.requests;
@@ -3872,3 +3885,431 @@ fn run_endpoints(rep: &mut Report, svc: &Service, server: &mut Server, models: &
     }
   }
 }
+
+// ================================================================================================
+// m18 BEGIN — family `spellings` (wave-9 change C18-20): the same content written into the body of
+// `POST /evaluate/<model>/E` in BOTH spellings the handler documents ("input values may be defined in JSON or FEEL
+// context format"): strict JSON (quoted keys, JSON escapes, JSON numbers) and FEEL context syntax (names without
+// quotation marks, FEEL escapes, `(-n)`), through the echo invocable `E`.  C18: "evaluation results are rendered so that
+// strings …, numbers, booleans, nulls, lists and contexts decode to the evaluated value" and "the evaluate endpoints
+// behave as the same sequence of workspace operations": the value evaluated is the value the body denotes, so the data
+// member must decode to the value WRITTEN INTO THE BODY.  Written-out oracle: the generated value itself (`G`) — numbers
+// are the digits sent, compared as decimal numbers by `num_norm`; no answer of the code is consulted.  Numbers: 1..34
+// significant digits (a FEEL number holds 34, a binary double about 16), fractions, leading / trailing zeros, integers
+// around 2^53, 2^63, 2^64, 2^100, negative, at any depth; exponent forms (`1e2`, `1e400`, `1E-400`: the FEEL lexer has no
+// exponent, so a rejection is accepted for these — data, if given, must still be the number sent).  Strings and keys over
+// the alphabet of `gen_string` with every JSON escape (`\" \\ \/ \b \f \n \r \t \uXXXX`, surrogate pairs).  Known
+// observation on the unchanged tree (seeded/C18-notes-wave9.md): the FEEL lexer keeps `\/`, `\b`, `\f` as written; a
+// JSON body that uses one of these three is sent, its numbers and structure are compared, its strings are not asserted
+// (counted under `spellings:known-escape-not-asserted`).
+
+const SIG_SP_NUMBER: &str = "spellings: a number written into an /evaluate body does not come back as the number that was sent";
+const SIG_SP_VALUE: &str = "spellings: a value written into an /evaluate body does not come back as the value that was sent";
+const SIG_SP_ANSWER: &str = "spellings: an /evaluate body is not answered with a JSON document that has the data or the errors member";
+const SIG_SP_REJECTED: &str = "spellings: an /evaluate body of plain literals is answered in the errors member";
+const SIG_SP_DIFFER: &str = "spellings: the JSON spelling and the FEEL spelling of the same content are not answered alike";
+
+/// Number texts in the JSON number grammar (also FEEL literals when `plain`): (text, plain decimal notation).
+fn sp_number_corpus() -> Vec<(String, bool)> {
+  let mut out: Vec<(String, bool)> = vec![];
+  let digits = "1234567890123456789012345678901234";
+  let nines = "9".repeat(34);
+  let mut k = 0usize;
+  let mut push = |out: &mut Vec<(String, bool)>, t: String| {
+    k += 1;
+    let zero = num_norm(&t).map(|n| n.1 == "0").unwrap_or(true);
+    if k % 3 == 0 && !zero {
+      out.push((format!("-{}", t), true));
+    } else {
+      out.push((t, true));
+    }
+  };
+  for n in 1..=34usize {
+    push(&mut out, digits[..n].to_string());
+    push(&mut out, nines[..n].to_string());
+    push(&mut out, format!("0.{}", &digits[..n]));
+    push(&mut out, format!("0.000{}", &nines[..n]));
+    let mut p = 1;
+    while p < n {
+      push(&mut out, format!("{}.{}", &digits[..p], &digits[p..n]));
+      p += 3;
+    }
+  }
+  for (bits, deltas) in [(53u32, [-1i128, 0, 1, 2]), (63, [-1, 0, 1, 2]), (64, [-1, 0, 1, 2]), (100, [-1, 0, 1, 3]), (112, [-1, 0, 1, 5])] {
+    for d in deltas {
+      let v = ((1u128 << bits) as i128 + d).to_string();
+      out.push((v.clone(), true));
+      out.push((format!("-{}", v), true));
+      if v.len() < 34 {
+        out.push((format!("{}.5", v), true));
+      }
+    }
+  }
+  for t in [
+    "0", "0.0", "0.000", "1", "-1", "2.50", "-2.50", "12.5", "0.001", "0.1", "1234567890123", "100", "1200.00", "10000000000000000000", "100000000000000000000", "1000000000000000000000000000000",
+    "1234567890.0123456789012345", "123456789012345678901234", "0.1000000000000000000001", "0.30000000000000004", "0.1000000000000000055511151231257827",
+    "9007199254740993", "1.7976931348623157", "1.79769313486231570001", "4.9406564584124654", "18446744073709551615.00000000000001", "-9223372036854775809", "0.99999999999999999", "99999999999999999.9", "3.141592653589793238462643383279502",
+  ] {
+    out.push((t.to_string(), true));
+  }
+  for t in [
+    "1e2", "1E2", "1E+2", "1e+2", "1.5e10", "2.5E-3", "-1e2", "1e400", "1E400", "-1e400", "1E-400", "1e-400", "1e308", "1e309", "1.7976931348623159e308", "5e-324", "1e-325", "0e0", "0E-10", "1e0", "12e-1",
+    "1234567890123456789012345678901234e-20", "1.234567890123456789012345678901234E+20", "123456789012345678901e3", "1e6144", "1e-6143", "1e7000",
+  ] {
+    out.push((t.to_string(), false));
+  }
+  out
+}
+
+/// A plain decimal literal of 1..34 significant digits (half of them beyond the 17 a binary double tells apart).
+fn sp_number(rng: &mut Rng) -> String {
+  let n = if rng.chance(1, 2) { 1 + rng.below(17) } else { 17 + rng.below(18) };
+  let d = gen_digits(rng, n, 1);
+  let n = d.len();
+  let t = match rng.below(6) {
+    0 | 1 => d,
+    2 | 3 if n > 1 => {
+      let p = 1 + rng.below(n as u64 - 1) as usize;
+      format!("{}.{}", &d[..p], &d[p..])
+    }
+    4 => format!("0.{}{}", "0".repeat(rng.below(8) as usize), d),
+    5 => format!("{}{}", d, "0".repeat(rng.below(12) as usize)),
+    _ => format!("{}.0", d),
+  };
+  if rng.chance(1, 3) {
+    format!("-{}", t)
+  } else {
+    t
+  }
+}
+
+fn sp_key(rng: &mut Rng) -> String {
+  if rng.chance(1, 3) {
+    return (*rng.pick(&["a", "b", "ab", "Z9", "k_1", "Payload", "x", "aZ", "b0b"])).to_string();
+  }
+  let mut key = gen_string(rng, true).trim().to_string();
+  if key.chars().count() > 12 {
+    key = key.chars().take(12).collect::<String>().trim().to_string();
+  }
+  if key.is_empty() {
+    key = "k".to_string();
+  }
+  key
+}
+
+fn sp_value(rng: &mut Rng, depth: u32) -> G {
+  let k = if depth == 0 { rng.below(7) } else { rng.below(12) };
+  match k {
+    0 => G::Null,
+    1 => G::Bool(rng.chance(1, 2)),
+    2..=4 => G::Num(sp_number(rng)),
+    5 | 6 => G::Str(gen_string(rng, true)),
+    7..=9 => {
+      let n = rng.below(5);
+      G::List((0..n).map(|_| sp_value(rng, depth - 1)).collect())
+    }
+    _ => {
+      let n = rng.below(5);
+      let mut es: Vec<(String, G)> = vec![];
+      for _ in 0..n {
+        let key = sp_key(rng);
+        if es.iter().any(|(k, _)| *k == key) {
+          continue;
+        }
+        es.push((key, sp_value(rng, depth - 1)));
+      }
+      G::Ctx(es)
+    }
+  }
+}
+
+fn sp_hex4(rng: &mut Rng, u: u32) -> String {
+  if rng.chance(1, 2) {
+    format!("\\u{:04X}", u)
+  } else {
+    format!("\\u{:04x}", u)
+  }
+}
+
+/// A JSON string token denoting `s`, every character in one of the forms RFC 8259 gives it. `known`: may use (and
+/// counts the uses of) the three short escapes `\/`, `\b`, `\f` of the known observation.
+fn sp_json_string(rng: &mut Rng, s: &str, known: Option<&mut u32>) -> String {
+  let mut used = 0u32;
+  let allow = known.is_some();
+  let mut out = String::from("\"");
+  for c in s.chars() {
+    let u = c as u32;
+    let short: Option<&str> = match c {
+      '"' => Some("\\\""),
+      '\\' => Some("\\\\"),
+      '\n' => Some("\\n"),
+      '\r' => Some("\\r"),
+      '\t' => Some("\\t"),
+      _ => None,
+    };
+    let known_short: Option<&str> = match c {
+      '/' => Some("\\/"),
+      '\u{8}' => Some("\\b"),
+      '\u{c}' => Some("\\f"),
+      _ => None,
+    };
+    if let Some(e) = short {
+      if rng.chance(3, 4) {
+        out.push_str(e);
+      } else {
+        out.push_str(&sp_hex4(rng, u));
+      }
+    } else if known_short.is_some() && allow && rng.chance(1, 3) {
+      out.push_str(known_short.unwrap());
+      used += 1;
+    } else if u < 0x20 {
+      out.push_str(&sp_hex4(rng, u));
+    } else if u > 0xffff {
+      if rng.chance(1, 2) {
+        out.push(c);
+      } else {
+        let v = u - 0x10000;
+        out.push_str(&sp_hex4(rng, 0xd800 + (v >> 10)));
+        out.push_str(&sp_hex4(rng, 0xdc00 + (v & 0x3ff)));
+      }
+    } else if (u >= 0x7f && rng.chance(1, 2)) || rng.chance(1, 12) {
+      out.push_str(&sp_hex4(rng, u));
+    } else {
+      out.push(c);
+    }
+  }
+  out.push('"');
+  if let Some(k) = known {
+    *k += used;
+  }
+  out
+}
+
+/// A FEEL string literal denoting `s` (escapes of the FEEL lexer: `\' \" \\ \n \r \t \uXXXX \UXXXXXX`).
+fn sp_feel_string(rng: &mut Rng, s: &str) -> String {
+  let mut out = String::from("\"");
+  for c in s.chars() {
+    let u = c as u32;
+    match c {
+      '"' => out.push_str("\\\""),
+      '\\' => out.push_str("\\\\"),
+      '\n' if rng.chance(1, 2) => out.push_str("\\n"),
+      '\r' if rng.chance(1, 2) => out.push_str("\\r"),
+      '\t' if rng.chance(1, 2) => out.push_str("\\t"),
+      '\'' if rng.chance(1, 2) => out.push_str("\\'"),
+      _ if u < 0x20 || (u >= 0x7f && rng.chance(1, 2)) => {
+        if u <= 0xffff && rng.chance(3, 4) {
+          out.push_str(&format!("\\u{:04X}", u));
+        } else {
+          out.push_str(&format!("\\U{:06X}", u));
+        }
+      }
+      _ => out.push(c),
+    }
+  }
+  out.push('"');
+  out
+}
+
+const SP_COMMAS: &[&str] = &[", ", ",", " , ", ",\n\t"];
+const SP_COLONS: &[&str] = &[": ", ":", " : "];
+
+/// The strict JSON spelling (quoted keys, JSON escapes, numbers as written).
+fn sp_json(rng: &mut Rng, g: &G, known: &mut u32) -> String {
+  match g {
+    G::Null => "null".into(),
+    G::Bool(b) => b.to_string(),
+    G::Num(t) => t.clone(),
+    G::Str(s) => sp_json_string(rng, s, Some(known)),
+    G::List(xs) => {
+      let sep = *rng.pick(SP_COMMAS);
+      format!("[{}]", xs.iter().map(|x| sp_json(rng, x, known)).collect::<Vec<_>>().join(sep))
+    }
+    G::Ctx(es) => {
+      let (sep, col) = (*rng.pick(SP_COMMAS), *rng.pick(SP_COLONS));
+      format!("{{{}}}", es.iter().map(|(k, v)| format!("{}{}{}", sp_json_string(rng, k, None), col, sp_json(rng, v, known))).collect::<Vec<_>>().join(sep))
+    }
+    G::Expr(t) => t.clone(),
+  }
+}
+
+/// The FEEL context spelling (names without quotation marks where the key is a name, FEEL escapes, `(-n)` or `-n`).
+fn sp_feel(rng: &mut Rng, g: &G) -> String {
+  match g {
+    G::Null => "null".into(),
+    G::Bool(b) => b.to_string(),
+    G::Num(t) => match t.strip_prefix('-') {
+      Some(r) if rng.chance(1, 2) => format!("(-{})", r),
+      _ => t.clone(),
+    },
+    G::Str(s) => sp_feel_string(rng, s),
+    G::List(xs) => {
+      let sep = *rng.pick(SP_COMMAS);
+      format!("[{}]", xs.iter().map(|x| sp_feel(rng, x)).collect::<Vec<_>>().join(sep))
+    }
+    G::Ctx(es) => {
+      let (sep, col) = (*rng.pick(SP_COMMAS), *rng.pick(SP_COLONS));
+      let key = |rng: &mut Rng, k: &str| {
+        let name = k.chars().next().map(|c| c.is_ascii_alphabetic()).unwrap_or(false) && k.chars().all(|c| c.is_ascii_alphanumeric() || c == '_') && !matches!(k, "null" | "true" | "false" | "not" | "and" | "or" | "in" | "if" | "for");
+        if name && rng.chance(2, 3) {
+          k.to_string()
+        } else {
+          sp_feel_string(rng, k)
+        }
+      };
+      format!("{{{}}}", es.iter().map(|(k, v)| format!("{}{}{}", key(rng, k), col, sp_feel(rng, v))).collect::<Vec<_>>().join(sep))
+    }
+    G::Expr(t) => t.clone(),
+  }
+}
+
+/// The JSON document decodes to the value that was written (`strings`: string contents are asserted).
+fn sp_same(g: &G, j: &J, strings: bool) -> Result<(), &'static str> {
+  match (g, j) {
+    (G::Null, J::Null) => Ok(()),
+    (G::Bool(a), J::Bool(b)) if a == b => Ok(()),
+    (G::Num(t), J::Num(l)) => {
+      if num_norm(t).is_some() && num_norm(t) == num_norm(l) {
+        Ok(())
+      } else {
+        Err(SIG_SP_NUMBER)
+      }
+    }
+    (G::Num(_), _) => Err(SIG_SP_NUMBER),
+    (G::Str(a), J::Str(b)) if !strings || a == b => Ok(()),
+    (G::List(xs), J::Arr(ys)) if xs.len() == ys.len() => xs.iter().zip(ys.iter()).try_for_each(|(x, y)| sp_same(x, y, strings)),
+    (G::Ctx(es), J::Obj(ms)) if es.len() == ms.len() => es.iter().try_for_each(|(k, v)| match ms.iter().find(|(mk, _)| mk == k) {
+      Some((_, mv)) => sp_same(v, mv, strings),
+      None => Err(SIG_SP_VALUE),
+    }),
+    _ => Err(SIG_SP_VALUE),
+  }
+}
+
+fn sp_has_long_number(g: &G) -> bool {
+  match g {
+    G::Num(t) => num_norm(t).map(|n| n.1.len() > 15).unwrap_or(false),
+    G::List(xs) => xs.iter().any(sp_has_long_number),
+    G::Ctx(es) => es.iter().any(|(_, v)| sp_has_long_number(v)),
+    _ => false,
+  }
+}
+
+fn run_spellings(cfg: &Cfg, rep: &mut Report, rng: &mut Rng, svc: &Service, server: &mut Server, m: &MDef) {
+  let js = Some("application/json");
+  for (path, body) in [("/definitions/clear", String::new()), ("/definitions/add", svc.content_json(&Content::Model(m.clone()))), ("/definitions/deploy", String::new())] {
+    if let Err(e) = http(server.port, "POST", path, js, body.as_bytes()) {
+      rep.disagree(Kind::ImplVsSpec, "http", "the service stopped answering", path, &e, "an answer");
+      return;
+    }
+  }
+  let path = format!("/evaluate/{}/E", path_segment(&m.name));
+  // (value written into the body, every number in plain decimal notation)
+  let mut cases: Vec<(G, bool)> = vec![];
+  for (i, (t, plain)) in sp_number_corpus().into_iter().enumerate() {
+    let n = G::Num(t);
+    let g = match i % 5 {
+      0 | 1 => n,
+      2 => G::List(vec![G::Num("1".into()), n, G::Str("a/b".into())]),
+      3 => G::Ctx(vec![("Payload".into(), n), ("b".into(), G::Bool(true))]),
+      _ => G::List(vec![G::Ctx(vec![("k 1".into(), G::List(vec![G::Null, G::Ctx(vec![("a".into(), G::List(vec![n]))])]))])]),
+    };
+    cases.push((g, plain));
+  }
+  // every escape of RFC 8259 and the constants, alone and nested
+  let every: String = ESC_CHARS.iter().chain(PLAIN_CHARS.iter()).collect();
+  for _ in 0..6 {
+    cases.push((G::Str(every.clone()), true));
+    cases.push((G::Ctx(vec![(every.trim().to_string(), G::List(vec![G::Str(every.clone()), G::Null, G::Bool(false), G::Bool(true)]))]), true));
+  }
+  for c in ESC_CHARS.iter().chain(['/', '\'', '\u{7f}', '\u{85}', '\u{2028}', '\u{2029}', '\u{ffff}', '\u{10000}', '🙏'].iter()) {
+    for _ in 0..3 {
+      cases.push((G::Str(format!("a{}b", c)), true));
+    }
+  }
+  for g in [G::Null, G::Bool(true), G::Bool(false), G::List(vec![]), G::Ctx(vec![]), G::Str(String::new())] {
+    cases.push((g, true));
+  }
+  let random = if cfg.tier == "thorough" { 20_000 } else { 500 };
+  for _ in 0..random {
+    let depth = rng.below(5) as u32;
+    cases.push((sp_value(rng, depth), true));
+  }
+  rep.extra.insert("spellings_cases".into(), json!(cases.len()));
+  enum Ans {
+    Data(J),
+    Errors,
+    Bad,
+  }
+  for (g, plain) in &cases {
+    let mut known = 0u32;
+    let bodies = [("json", format!("{{\"x\"{}{}}}", *rng.pick(SP_COLONS), sp_json(rng, g, &mut known))), ("feel", format!("{{x{}{}}}", *rng.pick(SP_COLONS), sp_feel(rng, g)))];
+    if known > 0 {
+      rep.hit("spellings:known-escape-not-asserted");
+      rep.extra.insert("spellings_known_escape_bodies".into(), json!(rep.extra.get("spellings_known_escape_bodies").and_then(|x| x.as_u64()).unwrap_or(0) + 1));
+    }
+    if sp_has_long_number(g) {
+      rep.hit("spellings:number of more than 15 significant digits");
+    }
+    let wanted = format!("{{\"data\": {}}} (the value written into the body; numbers as decimal numbers)", to_feel(g));
+    let mut kinds: Vec<(u8, String)> = vec![];
+    let mut reported = false;
+    for (spelling, body) in &bodies {
+      let shown = format!("POST {} {}", path, body);
+      rep.case(&shown, true);
+      rep.hit(&format!("spellings:{}:{}", spelling, if *plain { "plain" } else { "exponent" }));
+      let text = match http(server.port, "POST", &path, Some(if *spelling == "json" { "application/json" } else { "text/plain" }), body.as_bytes()) {
+        Ok(a) => String::from_utf8_lossy(&a.body).to_string(),
+        Err(e) => {
+          rep.disagree(Kind::ImplVsSpec, "http", "the service stopped answering", &shown, &e, "an answer");
+          return;
+        }
+      };
+      let ans = match strict_parse(&text) {
+        Ok(j) => match (j.get("data"), j.get("errors")) {
+          (Some(d), None) => Ans::Data(d.clone()),
+          (None, Some(_)) => Ans::Errors,
+          _ => Ans::Bad,
+        },
+        Err(_) => Ans::Bad,
+      };
+      let got: String = text.chars().take(400).collect();
+      match &ans {
+        Ans::Bad => {
+          reported = true;
+          rep.disagree(Kind::ImplVsSpec, "spellings", SIG_SP_ANSWER, &shown, &got, "a JSON document with the data or the errors member");
+        }
+        Ans::Errors if *plain => {
+          reported = true;
+          rep.disagree(Kind::ImplVsSpec, "spellings", SIG_SP_REJECTED, &shown, &got, &wanted);
+        }
+        Ans::Errors => rep.hit(&format!("spellings:{}:exponent form rejected", spelling)),
+        Ans::Data(d) => {
+          let strings = !(*spelling == "json" && known > 0);
+          match sp_same(g, d, strings) {
+            Ok(()) => rep.hit(&format!("spellings:{}:echoed", spelling)),
+            Err(sig) => {
+              reported = true;
+              rep.disagree(Kind::ImplVsSpec, "spellings", sig, &shown, &got, &wanted);
+            }
+          }
+        }
+      }
+      kinds.push((
+        match ans {
+          Ans::Data(_) => 0,
+          Ans::Errors => 1,
+          Ans::Bad => 2,
+        },
+        got,
+      ));
+    }
+    // both spellings of the same content are answered alike (data that passed the comparison above is the same value)
+    if !reported && kinds.len() == 2 && kinds[0].0 != kinds[1].0 {
+      rep.disagree(Kind::ImplVsSpec, "spellings", SIG_SP_DIFFER, &format!("POST {} {}  |  {}", path, bodies[0].1, bodies[1].1), &format!("json: {}  |  feel: {}", kinds[0].1, kinds[1].1), "the same answer to both");
+    } else if !reported {
+      rep.hit("spellings:both spellings answered alike");
+    }
+  }
+}
+// m18 END
